@@ -5,7 +5,7 @@ import vlib, lclib, helperlib
 def run(ctx):
     quick = ctx.tier == "quick"
     lclib.model_check(ctx, quick)
-    lclib.run(ctx, lclib.C07_WHATS, 420 if quick else 6300, 36 if quick else 50)
+    lclib.run(ctx, lclib.C07_WHATS, 510 if quick else 7650, 36 if quick else 50)
     # the controllers' ordering (own finalizer on the input before the output exists, removed only after the output is gone)
     # protects nothing unless the store refuses to remove a resource that carries a finalizer under every interleaving: the
     # lifecycle driver serialises writes in its recording proxy, so that gate is exercised here on real threads
